@@ -112,6 +112,8 @@ class Built:
         if k == 'none':
             return
         if k == 'raise_seasoning':
+            if len(e) > 1 and e[1] == 'noargs':
+                raise y.SeasoningError()
             raise y.SeasoningError('seasoning failed on purpose')
         if k == 'rename':
             if node.is_mapping():
@@ -138,6 +140,13 @@ class Built:
         elif k == 'mapping_to_scalar':
             if node.is_mapping() and node.has_attribute(e[1]):
                 node.set_value(node.get_attribute(e[1]).get_value())
+        elif k == 'read_value':
+            if node.is_mapping():
+                for name in e[1:]:
+                    if node.has_attribute(name):
+                        a = node.get_attribute(name)
+                        if a.is_scalar():
+                            a.get_value()
         elif k == 'need_attr':
             if node.is_mapping():
                 node.get_attribute(e[1])
